@@ -218,8 +218,19 @@ class LTLExplainer(LtlAstVisitor):
             op1_intervals, op2_intervals = explain_unsat_iff(op1_signal, op2_signal, intervals)
         self.explanations[element.name] = intervals
 
-        self.visit(element.children[0], [op1_intervals, flag])
-        self.visit(element.children[1], [op2_intervals, flag])
+        self.visit_with_own_polarity(element.children[0], op1_signal, op1_intervals)
+        self.visit_with_own_polarity(element.children[1], op2_signal, op2_intervals)
+
+    def visit_with_own_polarity(self, child, signal, intervals):
+        # iff and xor are not monotone: their value is fixed by the truth values of both
+        # operands, whatever the polarity of the connective.  An operand is explained as
+        # holding on the samples where it holds and as violated on the others.
+        sat_intervals, _ = explain_sat_or(signal, signal, intervals)
+        unsat_intervals, _ = explain_unsat_and(signal, signal, intervals)
+        if sat_intervals:
+            self.visit(child, [sat_intervals, True])
+        if unsat_intervals:
+            self.visit(child, [unsat_intervals, False])
 
     def visitXor(self, element, args):
         intervals = args[0]
@@ -232,8 +243,8 @@ class LTLExplainer(LtlAstVisitor):
             op1_intervals, op2_intervals = explain_unsat_xor(op1_signal, op2_signal, intervals)
         self.explanations[element.name] = intervals
 
-        self.visit(element.children[0], [op1_intervals, flag])
-        self.visit(element.children[1], [op2_intervals, flag])
+        self.visit_with_own_polarity(element.children[0], op1_signal, op1_intervals)
+        self.visit_with_own_polarity(element.children[1], op2_signal, op2_intervals)
 
     def visitEventually(self, element, args):
         intervals = args[0]
